@@ -40,6 +40,40 @@ func runtimeGet(flavour string, msg, desc any) (any, error) {
 	return proto.GetExtension(msg.(proto.Message), desc.(protoreflect.ExtensionType)), nil
 }
 
+func runtimeSet(flavour string, msg, desc, val any) error {
+	switch flavour {
+	case "gogo":
+		return gogoproto.SetExtension(msg.(gogoproto.Message), desc.(*gogoproto.ExtensionDesc), val)
+	case "gv1":
+		return golangproto.SetExtension(msg.(golangproto.Message), desc.(*golangproto.ExtensionDesc), val)
+	}
+	proto.SetExtension(msg.(proto.Message), desc.(protoreflect.ExtensionType), val)
+	return nil
+}
+
+func runtimeClear(flavour string, msg, desc any) {
+	switch flavour {
+	case "gogo":
+		gogoproto.ClearExtension(msg.(gogoproto.Message), desc.(*gogoproto.ExtensionDesc))
+	case "gv1":
+		golangproto.ClearExtension(msg.(golangproto.Message), desc.(*golangproto.ExtensionDesc))
+	default:
+		proto.ClearExtension(msg.(proto.Message), desc.(protoreflect.ExtensionType))
+	}
+}
+
+func runtimeClearAll(flavour string, msg any) {
+	switch flavour {
+	case "gogo":
+		gogoproto.ClearAllExtensions(msg.(gogoproto.Message))
+	case "gv1":
+		golangproto.ClearAllExtensions(msg.(golangproto.Message))
+	default:
+		m := msg.(proto.Message)
+		proto.RangeExtensions(m, func(xt protoreflect.ExtensionType, _ interface{}) bool { proto.ClearExtension(m, xt); return true })
+	}
+}
+
 func runC12(cfg *config, res *monitor.Result) {
 	nseq := 30
 	if cfg.thorough() {
@@ -77,6 +111,11 @@ func runC12(cfg *config, res *monitor.Result) {
 				base.Set(fd, protoreflect.ValueOfInt32(int32(1000+s)))
 			}
 			_ = t.pkg.FromDynamic(base, msg)
+			// shadow: the same history applied through the owning runtime's own API; after every step both
+			// messages must be in the same state (extensions and unknown fields included)
+			shadow := t.pkg.New(t.md.FullName())
+			_ = t.pkg.FromDynamic(base, shadow)
+			inUnknown := map[protoreflect.FieldNumber]bool{} // extensions injected as raw unknown bytes
 			model := map[protoreflect.FieldNumber][]byte{} // number -> canonical bytes of the value
 			var trace []string
 			setSeen, clearSeen := false, false
@@ -132,20 +171,42 @@ func runC12(cfg *config, res *monitor.Result) {
 							viol("SetExtension", "error", "SetExtension failed with a value in the runtime's own convention: "+err.Error())
 							return
 						}
+						goVal2, _ := t.pkg.ExtDynToGo(dfd, dv)
+						_ = runtimeSet(t.pkg.Flavour, shadow, desc, goVal2)
 						model[num] = want
 						setSeen = true
 					case c < 6: // Clear
 						trace = append(trace, fmt.Sprintf("Clear(%s)", dfd.Name()))
 						evals++
 						csproto.ClearExtension(msg, desc)
+						runtimeClear(t.pkg.Flavour, shadow, desc)
 						delete(model, num)
 						clearSeen = true
 					case c == 6: // ClearAll
 						trace = append(trace, "ClearAll")
 						evals++
 						csproto.ClearAllExtensions(msg)
+						runtimeClearAll(t.pkg.Flavour, shadow)
 						model = map[protoreflect.FieldNumber][]byte{}
 						clearSeen = true
+					case c == 7 && !dfd.IsList():
+						// the extension arrives as raw bytes in the unknown fields (decoded while the descriptor was not
+						// resolvable): what the accessors do with it is the owning runtime's business - csproto must match it
+						scratch := dynamicpb.NewMessage(t.md)
+						var dv protoreflect.Value
+						if dfd.Kind() == protoreflect.MessageKind {
+							dv = scratch.NewField(dfd)
+						} else {
+							dv = g.RandomScalarValue(dfd)
+						}
+						scratch.Set(dfd, dv)
+						raw, _ := bridge.MarshalRef(scratch)
+						trace = append(trace, fmt.Sprintf("InjectUnknown(%s)", dfd.Name()))
+						for _, m := range []any{msg, shadow} {
+							r := bridge.Reflect(m)
+							r.SetUnknown(append(append(protoreflect.RawFields(nil), r.GetUnknown()...), raw...))
+						}
+						inUnknown[num] = true
 					default:
 						trace = append(trace, fmt.Sprintf("Check(%s)", dfd.Name()))
 					}
@@ -156,6 +217,12 @@ func runC12(cfg *config, res *monitor.Result) {
 						evals++
 						has := csproto.HasExtension(msg, xdesc)
 						_, inModel := model[xd.Number()]
+						if rh := runtimeHas(t.pkg.Flavour, shadow, xdesc); rh != has {
+							viol("HasExtension", "differs-from-runtime-history", fmt.Sprintf("HasExtension(%s)=%v, the same history through the runtime's own API gives %v", xd.Name(), has, rh))
+						}
+						if inUnknown[xd.Number()] {
+							continue // the model does not define this state; the shadow comparison does
+						}
 						if has != inModel {
 							viol("HasExtension", "differs-from-history", fmt.Sprintf("HasExtension(%s)=%v, expected %v", xd.Name(), has, inModel))
 						}
@@ -182,6 +249,16 @@ func runC12(cfg *config, res *monitor.Result) {
 						if err != nil || n != int(xd.Number()) {
 							viol("ExtensionFieldNumber", "wrong", fmt.Sprintf("ExtensionFieldNumber(%s)=%d err=%v, declared %d", xd.Name(), n, err, xd.Number()))
 						}
+					}
+					// the whole message state must equal the shadow's
+					evals++
+					md1, e1 := t.pkg.ToDynamic(msg)
+					md2, e2 := t.pkg.ToDynamic(shadow)
+					if e1 == nil && e2 == nil && !bridge.Equal(md1, md2) {
+						viol("State", "differs-from-runtime-history", "after the same history the message differs from one driven through the runtime's own extension API: "+fmt.Sprint(bridge.Diff(md2.ProtoReflect(), md1.ProtoReflect())))
+					}
+					if len(inUnknown) > 0 {
+						return // set-based checks below assume extensions live in known storage
 					}
 					// Range visits exactly the set extensions
 					visited := map[int32]int{}
